@@ -25,8 +25,12 @@ FRAGMENT = gen.Opts(p_packed=0.0, p_backend=0.3, max_modules=3, max_items=5, max
 def generate(rng, tier):
     n = 60 if tier == 'quick' else 1500
     out = []
-    for i in range(n):
-        c = gen.world(rng, 'w%d' % i, ps=8, opts=FRAGMENT)
+    import copy
+    near = copy.copy(FRAGMENT); near.p_nearmiss = 0.5; near.p_vftable = 0.1; near.p_backend = 0.0
+    for i in range(n + n // 2):
+        # the last third: worlds in which one type just misses an acceptance condition of the layout (rejected today; a pyxis
+        # that has lost the check accepts them and the compiler sees the emitted size checks fail)
+        c = gen.world(rng, 'w%d' % i, ps=8, opts=FRAGMENT) if i < n else gen.world(rng, 'near%d' % i, ps=8, opts=near)
         # unique names inside prologue / epilogue blocks so that the user-supplied Rust is itself valid
         k = [0]
         def uniq(text):
@@ -85,6 +89,7 @@ def judge_all(cases, impl, model, tier):
     fs = []
     info = {'dist': [], 'nontrivial_hashes': [], 'compared': 0}
     jobs = []
+    voidy = {}
     for c in cases:
         io3 = impl.get(c[1], {}).get('o3')
         if outcome_class(io3) != 'ok':
@@ -105,6 +110,8 @@ def judge_all(cases, impl, model, tier):
             texts.setdefault('/'.join(mp) + '.rs', '')
         asserts = layout_asserts(c, files, crate) if find(c, 'ps')[1] == 8 else {}
         src = o4.assemble(texts, ext, asserts)
+        from .layoutcommon import void_tainted
+        voidy[c[1]] = bool(void_tainted(crate))
         jobs.append((c, src, sum(len(v or []) for v in files.values())))
     def work(job):
         c, src, nitems = job
@@ -137,6 +144,14 @@ def judge_all(cases, impl, model, tier):
                     continue
                 main = ([x for x in codes if x != 'E0080'] or codes)[0]
             why = KNOWN_CODES.get(main, 'other')
+            if main == 'E0512' and not voidy.get(cid):
+                why = 'size-check-fails'      # the open finding `size-check-mismatch` is the by-value `void` case only
+            if main == 'E0592':
+                # the open finding is the `<field>_<name>` rename landing on a taken name; any other duplicate method is new
+                bfields = set(nd[2] for _, nd in all_nodes(c) if tag(nd) == 'field' and has_ident(nd[4][1:], 'base'))
+                dup = [n_ for code, m_ in errs if code == 'E0592' for n_ in re.findall(r'name `([^`]+)`', m_)]
+                if not dup or not all(any(n_.startswith(b_ + '_') for b_ in bfields) for n_ in dup):
+                    why = 'duplicate-method'
             reason = 'C13/emitted-crate-rejected/%s' % why
             if main == 'E0080' and all(code == 'E0080' for code in codes):
                 # only the oracle's own layout assertions failed: the layout *model* disagrees with rustc
